@@ -1,0 +1,112 @@
+/*
+ *  Observation-only hooks for the external runtime monitors (cargo feature `verif`).
+ *  Nothing in here changes a value the library computes.
+ */
+
+//! Process-global monitor state. Updated with atomics only, shadows no library state.
+
+use std::sync::atomic::{AtomicBool, AtomicU64, Ordering};
+use std::sync::Mutex;
+
+/// Number of connection matrix reads and updates seen
+pub static MATRIX_ACCESSES: AtomicU64 = AtomicU64::new(0);
+/// Number of connection matrix accesses which were outside of the matrix
+pub static MATRIX_OOB: AtomicU64 = AtomicU64::new(0);
+/// Number of trie array accesses
+pub static TRIE_ACCESSES: AtomicU64 = AtomicU64::new(0);
+/// Number of trie array accesses outside of the array
+pub static TRIE_OOB: AtomicU64 = AtomicU64::new(0);
+/// Number of word id table accesses
+pub static WID_TABLE_ACCESSES: AtomicU64 = AtomicU64::new(0);
+/// Number of word id table accesses outside of the table
+pub static WID_TABLE_OOB: AtomicU64 = AtomicU64::new(0);
+
+/// When set, every 64th hooked access yields the current thread (schedule perturbation)
+pub static YIELD: AtomicBool = AtomicBool::new(false);
+
+static FIRST_OOB: Mutex<Option<String>> = Mutex::new(None);
+
+#[inline]
+fn maybe_yield(count: u64) {
+    if count & 63 == 0 && YIELD.load(Ordering::Relaxed) {
+        std::thread::yield_now();
+    }
+}
+
+fn record(counter: &AtomicU64, what: String) {
+    counter.fetch_add(1, Ordering::Relaxed);
+    if let Ok(mut g) = FIRST_OOB.lock() {
+        if g.is_none() {
+            *g = Some(what);
+        }
+    }
+}
+
+#[inline]
+pub fn matrix_access(left: usize, right: usize, num_left: usize, num_right: usize, len: usize) {
+    let n = MATRIX_ACCESSES.fetch_add(1, Ordering::Relaxed);
+    maybe_yield(n);
+    if left >= num_left || right >= num_right || right * num_left + left >= len {
+        record(
+            &MATRIX_OOB,
+            format!(
+                "matrix access left={} right={} num_left={} num_right={} len={}",
+                left, right, num_left, num_right, len
+            ),
+        );
+    }
+}
+
+#[inline]
+pub fn trie_access(index: usize, len: usize) {
+    let n = TRIE_ACCESSES.fetch_add(1, Ordering::Relaxed);
+    maybe_yield(n);
+    if index >= len {
+        record(&TRIE_OOB, format!("trie access index={} len={}", index, len));
+    }
+}
+
+#[inline]
+pub fn wid_table_access(index: usize, offset: usize, size: usize, bytes_len: usize) {
+    WID_TABLE_ACCESSES.fetch_add(1, Ordering::Relaxed);
+    if index >= size || index + offset >= bytes_len {
+        record(
+            &WID_TABLE_OOB,
+            format!(
+                "word id table access index={} offset={} size={} bytes={}",
+                index, offset, size, bytes_len
+            ),
+        );
+    }
+}
+
+/// Takes the description of the first out-of-range access seen since the last call
+pub fn take_first_oob() -> Option<String> {
+    FIRST_OOB.lock().ok().and_then(|mut g| g.take())
+}
+
+/// (matrix accesses, matrix oob, trie accesses, trie oob, table accesses, table oob)
+pub fn counters() -> [u64; 6] {
+    [
+        MATRIX_ACCESSES.load(Ordering::Relaxed),
+        MATRIX_OOB.load(Ordering::Relaxed),
+        TRIE_ACCESSES.load(Ordering::Relaxed),
+        TRIE_OOB.load(Ordering::Relaxed),
+        WID_TABLE_ACCESSES.load(Ordering::Relaxed),
+        WID_TABLE_OOB.load(Ordering::Relaxed),
+    ]
+}
+
+/// Read-only copy of a lattice node with its Viterbi bookkeeping
+#[derive(Clone, Debug)]
+pub struct NodeView {
+    pub begin: usize,
+    pub end: usize,
+    pub left_id: u16,
+    pub right_id: u16,
+    pub cost: i16,
+    pub word_id: u32,
+    pub total_cost: i32,
+    pub prev_end: u16,
+    pub prev_index: u16,
+}
